@@ -53,7 +53,7 @@ func (g *gWorld) applyIll(op *gOp, ad *gAdapter) string {
 	}
 	var m gMap
 	if needMap {
-		m = ad.NewMap(g.Wg, rel...)
+		m = g.mapOf(ad, rel)
 	}
 	ptrs, comps := g.values(ad.Types, op.Tok)
 	switch class {
